@@ -62,6 +62,94 @@ Proof.
 Qed.
 End Alg.
 
+From QV Require Import NumpySem.
+From QVT Require Import CauchySchwarz Arnoldi ArnoldiR MGS.
+
+Section Cyc.
+Variable C : CRing.
+Notation qmat := (qmat C).
+(* what the Arnoldi loop stores, whatever the values of its coefficients (w_j = A v_j - sum_{i<=j} v_i h_ij, v_{j+1} h_{j+1,j} = w_j), is the
+   relation A V_m = V_{m+1} H -- for every size and every cycle length *)
+Theorem C04_arnoldi_relation N m (A V H : qmat) :
+  (forall j l, j < m -> l < N -> qmul (V l (S j)) (H (S j) j) = qsub (qmm N A V l j) (sumQ (S j) (fun i => qmul (V l i) (H i j)))) ->
+  (forall i j, j < m -> S j < i -> H i j = qzero) ->
+  meq N m (qmm N A V) (qmm (S m) V H).
+Proof. exact (arnoldi_relation C N m A V H). Qed.
+(* hence the residual of every x0 + V_m y is V_{m+1} (beta e1 - H y), of norm ||beta e1 - H y|| when the basis is orthonormal *)
+Theorem C04_cycle_residual_is_small_residual N m (A V H b x0 y e1b : qmat) :
+  (forall j l, j < m -> l < N -> qmul (V l (S j)) (H (S j) j) = qsub (qmm N A V l j) (sumQ (S j) (fun i => qmul (V l i) (H i j)))) ->
+  (forall i j, j < m -> S j < i -> H i j = qzero) ->
+  meq N 1 (qmsub b (qmm N A x0)) (qmm (S m) V e1b) -> meq (S m) (S m) (qmm N (qherm V) V) qmid ->
+  frob2 N 1 (qmsub b (qmm N A (qmadd x0 (qmm m V y)))) = frob2 (S m) 1 (qmsub e1b (qmm m H y)).
+Proof. intros L Hs St Or. exact (residual_norm_is_small_problem C N m A V H L Hs b x0 y e1b St Or). Qed.
+End Cyc.
+
+(* the cycle's iterate minimises the residual over x0 + range(V_m): y from the triangular system R_m y = (W^H beta e1)[:m], with W R = H the
+   Givens factorisation of C16 (W unitary, last row of R zero) *)
+Theorem C04_cycle_minimises_over_krylov_space N m (A V H W Rm b x0 e1b y y' : qmat RR) :
+  (forall j l, j < m -> l < N -> qmul (V l (S j)) (H (S j) j) = qsub (qmm N A V l j) (sumQ (S j) (fun i => qmul (V l i) (H i j)))) ->
+  (forall i j, j < m -> S j < i -> H i j = qzero) ->
+  meq N 1 (qmsub b (qmm N A x0)) (qmm (S m) V e1b) -> meq (S m) (S m) (qmm N (qherm V) V) qmid ->
+  meq (S m) (S m) (qmm (S m) W (qherm W)) qmid -> meq (S m) (S m) (qmm (S m) (qherm W) W) qmid ->
+  meq (S m) m (qmm (S m) W Rm) H -> (forall j, j < m -> Rm m j = qzero) ->
+  meq m 1 (qmm m Rm y) (qmm (S m) (qherm W) e1b) ->
+  (cycle_residual2 N m A V b x0 y <= cycle_residual2 N m A V b x0 y')%R.
+Proof.
+  intros L Hs St Or W1 W2 WR LR Hy.
+  exact (gmres_cycle_minimises N m A V H W Rm b x0 e1b L Hs St Or W1 W2 WR LR y y' Hy).
+Qed.
+(* the hypotheses of the relation are met by an actual run: A = [[0, 1], [1, 0]], b = e1, x0 = 0: v0 = e1, h00 = 0, w = e2, h10 = 1, v1 = e2 *)
+Example C04_arnoldi_hypotheses_hold :
+  let A : qmat ZR := fun i j => if Nat.eqb (i + j) 1 then qone else qzero in
+  let V : qmat ZR := qmid in
+  let H : qmat ZR := fun i j => if Nat.eqb i 1 && Nat.eqb j 0 then qone else qzero in
+  (forall j l, j < 1 -> l < 2 -> qmul (V l (S j)) (H (S j) j) = qsub (qmm 2 A V l j) (sumQ (S j) (fun i => qmul (V l i) (H i j)))) /\
+  (forall i j, j < 1 -> S j < i -> H i j = qzero).
+Proof.
+  cbv zeta. split.
+  - intros j l Hj Hl. assert (j = 0) by lia. subst j. destruct l as [|[|l]]; [vm_compute; reflexivity|vm_compute; reflexivity|lia].
+  - intros i j Hj Hi. assert (j = 0) by lia. subst j. destruct i as [|[|i]]; [lia|lia|reflexivity].
+Qed.
+
+(* the modified Gram-Schmidt loop of the Arnoldi process, as the code runs it (h_ij = v_i^H w, w <- w - v_i h_ij for i = 0..j, then
+   v_{j+1} = w / ||w||), in exact arithmetic and without breakdown: the basis stays orthonormal and the Arnoldi equations hold *)
+Theorem C04_mgs_basis_is_orthonormal n m (A V H : qmat RR) (Wk : nat -> nat -> nat -> quat RR) (rho : nat -> R) :
+  (forall j l, j < m -> l < n -> Wk j 0 l = qmm n A V l j) ->
+  (forall j i, j < m -> i <= j -> H i j = ip n (fun l => V l i) (Wk j i)) ->
+  (forall j i l, j < m -> i <= j -> l < n -> Wk j (S i) l = qsub (Wk j i l) (qmul (V l i) (H i j))) ->
+  (forall j, j < m -> H (S j) j = @qreal RR (rho j)) -> (forall j, j < m -> rho j <> 0%R) ->
+  (forall j, j < m -> (rho j * rho j)%R = @sumR RR n (fun l => N (Wk j (S j) l))) ->
+  (forall j l, j < m -> l < n -> qmul (V l (S j)) (H (S j) j) = Wk j (S j) l) ->
+  @sumR RR n (fun l => N (V l 0)) = 1%R ->
+  meq (S m) (S m) (qmm n (qherm V) V) qmid /\
+  (forall j l, j < m -> l < n -> qmul (V l (S j)) (H (S j) j) = qsub (qmm n A V l j) (sumQ (S j) (fun i => qmul (V l i) (H i j)))).
+Proof.
+  intros w0 hdef wstep hsub rne rsq vnext v0. split.
+  - exact (mgs_gram_is_identity n m V H Wk rho hdef wstep hsub rne rsq vnext v0).
+  - intros j l Hj Hl. exact (mgs_gives_arnoldi_equations n m A V H Wk w0 wstep vnext j l Hj Hl).
+Qed.
+Example C04_mgs_hypotheses_hold :
+  let A : qmat RR := fun i j => if Nat.eqb (i + j) 1 then qone else qzero in
+  let V : qmat RR := qmid in
+  let H : qmat RR := fun i j => if Nat.eqb i 1 && Nat.eqb j 0 then qone else qzero in
+  let Wk : nat -> nat -> nat -> quat RR := fun _ _ l => if Nat.eqb l 1 then qone else qzero in
+  (forall j l, j < 1 -> l < 2 -> Wk j 0 l = qmm 2 A V l j) /\
+  (forall j i, j < 1 -> i <= j -> H i j = ip 2 (fun l => V l i) (Wk j i)) /\
+  (forall j i l, j < 1 -> i <= j -> l < 2 -> Wk j (S i) l = qsub (Wk j i l) (qmul (V l i) (H i j))) /\
+  (forall j, j < 1 -> H (S j) j = @qreal RR 1%R) /\
+  (forall j, j < 1 -> (1 * 1)%R = @sumR RR 2 (fun l => N (Wk j (S j) l))) /\
+  (forall j l, j < 1 -> l < 2 -> qmul (V l (S j)) (H (S j) j) = Wk j (S j) l) /\
+  @sumR RR 2 (fun l => N (V l 0)) = 1%R.
+Proof.
+  cbv zeta. repeat split.
+  - intros j l Hj Hl. assert (j = 0) by lia. subst. destruct l as [|[|l]]; [| |lia]; cbv [qmm sumQ qmid Nat.eqb Nat.add]; qr.
+  - intros j i Hj Hi. assert (j = 0) by lia. assert (i = 0) by lia. subst. cbv [ip sumQ qmid Nat.eqb andb]. qr.
+  - intros j i l Hj Hi Hl. assert (j = 0) by lia. assert (i = 0) by lia. subst. destruct l as [|[|l]]; [| |lia]; cbv [qmid Nat.eqb andb]; qr.
+  - intros j Hj. assert (j = 0) by lia. subst. reflexivity.
+  - intros j Hj. cbv [sumR Nat.eqb N qnorm2 qone qzero qw qx qy qz]. cbn [car c0 c1 cadd cmul RR]. ring.
+  - intros j l Hj Hl. assert (j = 0) by lia. subst. destruct l as [|[|l]]; [| |lia]; cbv [qmid Nat.eqb andb]; qr.
+  - cbv [sumR qmid Nat.eqb N qnorm2 qone qzero qw qx qy qz]. cbn [car c0 c1 cadd cmul RR]. ring.
+Qed.
 Print Assumptions C04_info_truthful.
 Print Assumptions C04_zero_rhs.
 Print Assumptions C04_spec_minimises.
@@ -69,3 +157,7 @@ Print Assumptions C04_precond_same_solution.
 Print Assumptions C04_scaling_same_solution.
 
 Print Assumptions C04_history_never_increases.
+Print Assumptions C04_arnoldi_relation.
+Print Assumptions C04_cycle_residual_is_small_residual.
+Print Assumptions C04_cycle_minimises_over_krylov_space.
+Print Assumptions C04_mgs_basis_is_orthonormal.
